@@ -4,6 +4,4 @@ package field
 
 func init() {
 	VerifPow3mod4 = func(z, x *Element) *Element { return z.pow3mod4(x) }
-	VerifSetShortBytes = func(z *Element, src []byte) *Element { return z.setShortBytes(src) }
-	VerifReduceSaturated = func(dst, src *[4]uint64) uint64 { return reduceSaturated(dst, src) }
 }
